@@ -17,7 +17,7 @@ RULE = ('all 16 FIN/RSV combinations x 6 opcodes x mask {off, key 0, one non-zer
         'encoder and decoded back under all-at-once / 1-byte / random read plans; all 65 536 two-byte headers followed by a '
         'complete and by a truncated remainder; every split point (and every pair of split points for frames <= 14 bytes) of '
         '~60 short frames; random frames up to 64 KiB (quick) / 1 MiB (thorough) with random plans, truncations, trailing '
-        'bytes, non-minimal length forms, claimed lengths up to 2^64-1, reads returning 0; non-trivial = masked with non-zero '
+        'bytes, non-minimal length forms, claimed lengths up to 2^64-1, plans with reads returning 0 (oracle = the bytes before the first such read); non-trivial = masked with non-zero '
         'key, or extended length form, or split inside the header')
 ASSUMPTIONS = ['the scripted Read of the harness (one read never crosses a chunk boundary; Ok(0) after the last chunk) is what '
                'Stream.v models; std read_exact / Take / read_to_end behave as documented',
@@ -134,6 +134,14 @@ def py_chunk_sizes(plan, total):
     return out
 
 
+def effective(data, plan):
+    """the bytes a reader can see before its first 0-byte read (= all of them when the plan has none)"""
+    sizes = py_chunk_sizes(plan, len(data))
+    if 0 in sizes:
+        return data[:sum(sizes[:sizes.index(0)])]
+    return data
+
+
 # ---------------------------------------------------------------------------------------------------
 # case construction
 
@@ -182,6 +190,8 @@ def rand_plan(rng, total, hdr=14):
             if c - prev > 0:
                 sizes.append(c - prev)
                 prev = c
+        if sizes and rng.random() < 0.06:
+            sizes.insert(rng.randrange(len(sizes) + 1), 0)
         return ','.join(str(s) for s in sizes) if sizes else '-'
     # byte-wise through the header, then bulk
     return ','.join(['1'] * min(total, hdr)) if total else '-'
@@ -619,8 +629,8 @@ def run(ctx):
     # model's flat reference parser on the concatenation, on the enumerated header stream (proved equal; checks extraction).
     # parse_spec indexes the key with unary naturals (quadratic): short inputs only
     flat_idx = [i for i, (_, meta) in enumerate(alldec) if meta['tag'].startswith(('hdr-', 'split-', 'corpus', 'replay'))
-                and len(meta['data']) <= 1500 and 0 not in py_chunk_sizes(meta['plan'], len(meta['data']))]
-    flat = model_run(['c10_spec ' + hx(alldec[i][1]['data']) for i in flat_idx])
+                and len(meta['data']) <= 1500]
+    flat = model_run(['c10_spec ' + hx(effective(alldec[i][1]['data'], alldec[i][1]['plan'])) for i in flat_idx])
     flat_of = dict(zip(flat_idx, flat))
     sampled = set()
     want_samples = {('roundtrip', 'ok'), ('hdr-complete', 'ok'), ('hdr-truncated', 'err:read'), ('huge-claim', 'err:read'),
@@ -633,14 +643,13 @@ def run(ctx):
         a_main, alloc = split_tail(a, 'alloc')
         b_main, cap = split_tail(b, 'cap')
         sizes = py_chunk_sizes(plan, len(data))
-        wf_plan = 0 not in sizes
-        # independent oracle on the concatenation (valid for plans without a zero-length read)
-        o = py_decode(data) if wf_plan else None
-        if o is not None:
-            exp = show_ok(o[1], o[2]) if o[0] == 'ok' else o[0]
-        else:
-            exp = None
-        if meta.get('expect') and exp is not None and exp != meta['expect']:
+        # independent oracle on the concatenation of what the reader delivers before its first 0-byte read
+        eff = effective(data, plan)
+        o = py_decode(eff)
+        exp = show_ok(o[1], o[2]) if o[0] == 'ok' else o[0]
+        if 0 in sizes:
+            ctx.count('dec-plan-with-zero-read')
+        if meta.get('expect') and 0 not in sizes and exp != meta['expect']:
             ctx.report(case, 'oracle=' + exp[:200], 'expected=' + meta['expect'][:200], cls='oracle-selfcheck',
                        failing_input=False, what='python oracle does not round-trip its own encoding')
         a_cls = a_main.split(' ')[0]
@@ -650,14 +659,14 @@ def run(ctx):
         b_cls = b_core.split(' ')[0]
         ctx.count('dec-model:' + a_cls)
         ctx.count('dec-impl:' + b_cls)
-        if exp is not None and a_main != exp:
+        if a_main != exp:
             ctx.report(case, 'model=' + a_main[:300], 'oracle=' + exp[:300], cls='model-vs-oracle', failing_input=False,
                        what='Coq model of the frame decoder disagrees with the independent RFC 6455 decoder')
         if i in flat_of and flat_of[i] != a_main:
             ctx.report(case, 'chunked=' + a_main[:300], 'flat=' + flat_of[i][:300], cls='model-chunked-vs-flat',
                        failing_input=False, what='extracted decode and extracted parse_spec disagree (theorem says equal)')
         if b_core != a_main:
-            ref = exp if exp is not None else a_main
+            ref = exp
             bad = b_core != ref
             if b_cls in ('DIED', 'TIMEOUT', 'PANIC'):
                 what = ('decoding %d supplied bytes (header %s, read plan %s) %s under a %d MiB address-space limit; '
@@ -678,13 +687,13 @@ def run(ctx):
                 if alloc is not None and alloc > 2 * len(data) + 32:
                     ctx.report(case, 'model alloc=%s' % alloc, '<= 2*%d+32' % len(data), cls='model-alloc', failing_input=False,
                                what='model allocation meter exceeds the proved bound')
-            elif b_cls == 'err:opcode' and wf_plan:
+            elif b_cls == 'err:opcode':
                 if b_consumed != 2:
                     ctx.report(case, 'consumed=%s' % b_consumed, 'consumed=2', cls='dec-consumed', failing_input=True,
                                what='reserved opcode rejected after reading %s bytes instead of the 2 header bytes' % b_consumed)
-            elif b_cls == 'err:read' and wf_plan:
-                if b_consumed != len(data):
-                    ctx.report(case, 'consumed=%s' % b_consumed, 'consumed=%d' % len(data), cls='dec-consumed', failing_input=True,
+            elif b_cls == 'err:read':
+                if b_consumed != len(eff):
+                    ctx.report(case, 'consumed=%s' % b_consumed, 'consumed=%d' % len(eff), cls='dec-consumed', failing_input=True,
                                what='read error reported before the input was exhausted')
         if a_cls == 'ok':
             if len(sizes) > 1 and sizes[0] < 14 or ' mask=1 ' in a_main and 'key=00000000' not in a_main:
